@@ -66,6 +66,13 @@ def check_intern_or_get(chk, prog, cfg, rule="R1.3"):
             if name.endswith("entry::VacantEntry::insert"):
                 log.append(("map-insert", args[1]))
                 return absint.Sym("slot")
+            if name.endswith("btree::map::entry::Entry::or_insert") and len(args) == 2:
+                # Entry::or_insert: stores only when vacant; yields the stored / existing value
+                e = args[0]
+                if isinstance(e, tuple) and e[:2] == ("variant", "Vacant"):
+                    log.append(("map-insert", args[1]))
+                    return args[1]
+                return absint.Sym("K")
             if name == BT + "::get":
                 log.append(("lookup", args[1]))
                 return absint.some(absint.Sym("K")) if present else absint.NONE
